@@ -460,6 +460,10 @@ var TemplatesA = []Template{
 			b[4+i] = 2 * b[i] // x and y start from zero in every iteration
 		}
 	}},
+	{"shadowed-const-array-size", "u32", "const N = 1;", "{ const N = 5; var a: array<u32, N>; a[4] = buf[0]; a[0] = buf[1]; buf[2] = a[4] + a[0] + u32(N); const_assert N == 5; } buf[3] = u32(N);", func(b []uint32) {
+		b[2] = b[0] + b[1] + 5 // the inner N (5) sizes the array and is the value read
+		b[3] = 1               // the module-scope N again
+	}},
 	{"constant-expressions-int", "i32", "const A = -7; const B = 2;", "buf[0] = A / B; buf[1] = A % B; buf[2] = (A >> 1u) + (A << 2u); buf[3] = abs(A) + min(A, B) + max(A, B) + clamp(A, -3, 3); buf[4] = select(A, B, A < B) + i32(A == -7) + i32(!(A > B)); buf[5] = (A & 12) | (B ^ 5); buf[6] = -A * B - (A - B); buf[7] = i32(u32(A) >> 28u);", func(b []uint32) {
 		A, B := int32(-7), int32(2)
 		b[0] = uint32(A / B)
